@@ -128,6 +128,45 @@ BLOCK_OPS = ['remove_last', 'cut_last', 'slice_del_last', 'view_del_last', 'remo
              'insert_mid', 'slice_del_first2']
 
 
+_MB = {'x': 'é', 'a': 'á', 'b': 'ƀ', 'c': 'ç', 'f': 'ƒ', 's': 'š', 'C': 'Ç', 'm': 'ɱ', 'k': 'ķ', 'd': 'đ', 'y': 'ÿ', 'z': 'ž', 'i': 'ï', 'j': 'ĵ', 'r': 'ř',
+       'T': 'Ţ', 'A': 'Á', 'o': 'ø', 'p': 'þ', 'q': 'ɋ', 'e': 'ę', 'g': 'ğ', 'h': 'ħ', 'v': 'ʋ', 'w': 'ŵ', 'u': 'ů', 't': 'ţ', 'l': 'ł', 'n': 'ñ',
+       'E': 'Ę', 'B': 'Ɓ', 'U': 'Ů', 'P': 'Þ'}
+
+
+def mb(src):
+    """the same program with every one-letter identifier replaced by a multi-byte one (so that multi-byte text precedes almost
+    every position on its line) and string literals given a multi-byte character; None if the result does not parse to the
+    same shape"""
+    import io
+    import re
+    import tokenize
+    try:
+        toks = list(tokenize.generate_tokens(io.StringIO(src).readline))
+    except Exception:
+        return None
+    lines = src.split('\n')
+    edits = []
+    for t in toks:
+        if t.type == tokenize.NAME and t.string in _MB and t.start[0] == t.end[0]:
+            edits.append((t.start[0] - 1, t.start[1], t.end[1], _MB[t.string]))
+        elif t.type == tokenize.STRING and t.start[0] == t.end[0] and re.fullmatch(r'"[a-z]*"', t.string):
+            edits.append((t.start[0] - 1, t.start[1], t.end[1], '"é' + t.string[1:]))
+    for ln, c0, c1, new in sorted(edits, reverse=True):
+        lines[ln] = lines[ln][:c0] + new + lines[ln][c1:]
+    out = '\n'.join(lines)
+    try:
+        a, b = ast.parse(src), ast.parse(out)
+    except SyntaxError:
+        return None
+    if [n.__class__ for n in ast.walk(a)] != [n.__class__ for n in ast.walk(b)]:
+        return None
+    return out if out != src else None
+
+
+def _variant(src, var):
+    return src if var == 'ascii' else mb(src)
+
+
 def _find(root, cls):
     for f in root.walk(True):
         if f.a.__class__.__name__ == cls:
@@ -138,12 +177,15 @@ def _find(root, cls):
 def container_cases(thorough=False):
     out = []
     for ci, (src, cls, field, kind) in enumerate(CONTAINERS):
-        for ei, elem in enumerate(ELEMS[kind]):
-            for form in (('src', 'fst', 'ast') if thorough else ('src',)):
-                out.append(('c', ci, 'ins', ei, form))
-                out.append(('c', ci, 'rep', ei, form))
-        out.append(('c', ci, 'del', 0, 'src'))
-        out.append(('c', ci, 'two', 0, 'src'))       # two elements at once (one=False), every span
+        for var in ('ascii', 'mb'):
+            if var == 'mb' and mb(src) is None:
+                continue
+            for ei, elem in enumerate(ELEMS[kind]):
+                for form in (('src', 'fst', 'ast') if thorough else ('src',)):
+                    out.append(('c', ci, 'ins', ei, form, var))
+                    out.append(('c', ci, 'rep', ei, form, var))
+            out.append(('c', ci, 'del', 0, 'src', var))
+            out.append(('c', ci, 'two', 0, 'src', var))       # two elements at once (one=False), every span
     return out
 
 
@@ -205,8 +247,9 @@ def run_case(case):
     from fst import FST
     res = []
     if case[0] == 'c':
-        _, ci, op, ei, form = case
+        _, ci, op, ei, form, var = case
         src, cls, field, kind = CONTAINERS[ci]
+        src = _variant(src, var)
         elem = ELEMS[kind][ei]
         if op == 'two':
             a, b = ELEMS[kind][0], ELEMS[kind][1]
@@ -342,7 +385,7 @@ def run_case(case):
 def signature(rec):
     cls = 'no-parse' if rec['fail'].startswith('source no longer parses') else ('structure' if rec['fail'].startswith('structure') else 'positions')
     if rec['case'][0] == 'c':
-        return f"C01|target|{rec['cls']}.{rec['field']}|{rec['op']}:{rec.get('elem')}@{rec['start']}:{rec['stop']}/{rec['case'][1]}|{cls}"
+        return f"C01|target|{rec['cls']}.{rec['field']}|{rec['op']}:{rec.get('elem')}@{rec['start']}:{rec['stop']}/{rec['case'][1]}{rec['case'][5][:1]}|{cls}"
     return f"C01|target|{rec['cls']}.{rec['field']}|{rec['op']}/{'.'.join(map(str, rec['case'][2:]))}|{cls}"
 
 
@@ -389,7 +432,7 @@ CONST_VALUES = [0, -1, 'é', b'b', None, True, ..., 1.5, 2j, 'a\nb']
 
 
 def prim_cases():
-    return [('p', i) for i in range(len(PRIM_SRCS))]
+    return [('p', i, var) for i in range(len(PRIM_SRCS)) for var in ('ascii', 'mb') if var == 'ascii' or mb(PRIM_SRCS[i]) is not None]
 
 
 def _prim_values(cls, field):
@@ -408,7 +451,7 @@ def _prim_values(cls, field):
 
 def run_prim_case(case):
     from fst import FST
-    src = PRIM_SRCS[case[1]]
+    src = _variant(PRIM_SRCS[case[1]], case[2] if len(case) > 2 else 'ascii')
     res = []
     try:
         root0 = FST(src, 'exec')
@@ -440,7 +483,7 @@ def run_prim_case(case):
 
 def prim_signature(rec):
     cls = 'no-parse' if rec['fail'].startswith('source no longer parses') else ('structure' if rec['fail'].startswith('structure') else 'positions')
-    return f"C01|prim|{rec['cls']}.{rec['field']}@{rec.get('parent')}|{rec['value']}/{rec['case'][1]}.{rec['node']}|{cls}"
+    return f"C01|prim|{rec['cls']}.{rec['field']}@{rec.get('parent')}|{rec['value']}/{rec['case'][1]}{(rec['case'][2][:1] if len(rec['case']) > 2 and rec['case'][2] != 'ascii' else '')}.{rec['node']}|{cls}"
 
 
 def replay_prim(rec):
